@@ -241,7 +241,7 @@ def sparse_repeat(sparse, *repeat_sizes):
             new_indices = sparse._indices().repeat(1, repeat_size)
             adding_factor = torch.arange(0, repeat_size, dtype=new_indices.dtype, device=new_indices.device).unsqueeze_(
                 1
-            )
+            ) * sparse.size(i)
             new_indices[i].view(repeat_size, -1).add_(adding_factor)
             sparse = torch.sparse_coo_tensor(
                 new_indices,
